@@ -32,6 +32,9 @@ Qed.
 
 Definition pw (i : nat) : Z := 2 ^ (8 * Z.of_nat i).
 
+Lemma lor_disjoint_pw hi i lo : 0 <= lo < pw i -> Z.lor lo (hi * pw i) = lo + hi * pw i.
+Proof. intros H. unfold pw in *. apply lor_disjoint; lia. Qed.
+
 Lemma pw_pos i : 0 < pw i.
 Proof. unfold pw. apply Z.pow_pos_nonneg; lia. Qed.
 
@@ -105,7 +108,7 @@ Lemma or_terms_app w : forall a i b, or_terms w i (a ++ b) = or_terms w i a ++ o
 Proof.
   induction a as [|x a IH]; intros i b; cbn [app or_terms length].
   - rewrite Nat.add_0_r. reflexivity.
-  - rewrite IH. repeat f_equal. lia.
+  - rewrite IH. replace (S i + length a)%nat with (i + S (length a))%nat by lia. reflexivity.
 Qed.
 
 Lemma fold_low w : forall bs i acc,
@@ -116,8 +119,7 @@ Proof.
   - ring.
   - rewrite term_low by lia.
     pose proof (EncodersProofs.Z_of_byte_range b) as Hb.
-    unfold pw at 1 in Ha.
-    rewrite (lor_disjoint (Z_of_byte b) (8 * Z.of_nat i) acc) by lia. fold (pw i) in Ha |- *.
+    rewrite (lor_disjoint_pw (Z_of_byte b) i acc) by lia.
     rewrite IH.
     + rewrite pw_S. ring.
     + lia.
@@ -134,8 +136,7 @@ Proof.
   replace (length lo) with (w - 1)%nat by lia. rewrite term_top by lia.
   pose proof (EncodersProofs.le_value_range lo) as Hr. change (modulus (length lo)) with (pw (length lo)) in Hr.
   replace (length lo) with (w - 1)%nat in Hr by lia.
-  unfold pw at 1 in Hr.
-  rewrite (lor_disjoint _ (8 * Z.of_nat (w - 1)) (le_value lo)) by lia. fold (pw (w - 1)) in Hr |- *.
+  rewrite (lor_disjoint_pw _ (w - 1) (le_value lo)) by lia.
   rewrite le_value_app. replace (length lo) with (w - 1)%nat by lia.
   cbn [le_value]. pose proof (EncodersProofs.Z_of_byte_range top) as Hb.
   assert (modulus w = 256 * pw (w - 1)) as Hm.
@@ -146,3 +147,232 @@ Proof.
 Qed.
 
 End Arith.
+
+(* ================= Part 2: the leaf array ================= *)
+Local Open Scope nat_scope.
+Arguments Nat.div : simpl never.
+Arguments Nat.modulo : simpl never.
+
+Lemma take_while_In {A} (f : A -> bool) l x : In x (take_while f l) -> In x l.
+Proof.
+  induction l as [|a l IH]; cbn [take_while]; [tauto|]. destruct (f a); [|intros []].
+  intros [<-|H]; [left; reflexivity|right; auto].
+Qed.
+
+Lemma drop_while_In {A} (f : A -> bool) l x : In x (drop_while f l) -> In x l.
+Proof.
+  induction l as [|a l IH]; cbn [drop_while]; [tauto|]. destruct (f a); [intros H; right; auto|tauto].
+Qed.
+
+Lemma split_kids_In big w : forall labels es k e,
+  In k (split_kids big w labels es) -> In e (s_ents k) -> In e es.
+Proof.
+  induction labels as [|lb r IH]; intros es k e Hk He; cbn [split_kids] in Hk; [destruct Hk|].
+  destruct (drop_while (fun e0 => negb (ent_label big w e0 =? lb)) es) as [|e1 rest] eqn:Ed.
+  - destruct Hk as [<-|Hk]; [destruct He|]. exfalso. eapply (IH [] k e Hk He).
+  - assert (forall x, In x (e1 :: rest) -> In x es) as Hsub.
+    { intros x Hx. eapply drop_while_In. rewrite Ed. exact Hx. }
+    destruct Hk as [<-|Hk].
+    + cbn [s_ents] in He. apply Hsub. destruct He as [<-|He]; [left; reflexivity|right; eapply take_while_In; exact He].
+    + apply Hsub. right. eapply drop_while_In. eapply IH; eassumption.
+Qed.
+
+Lemma Forall2_in_r {A B} (R : A -> B -> Prop) l m y :
+  Forall2 R l m -> In y m -> exists x, In x l /\ R x y.
+Proof.
+  induction 1 as [|a b l m Hab _ IH]; intros Hy; [destruct Hy|].
+  destruct Hy as [<-|Hy]; [exists a; split; [left; reflexivity|exact Hab]|].
+  destruct (IH Hy) as (x & Hx & Hr). exists x. split; [right; exact Hx|exact Hr].
+Qed.
+
+Lemma level_lidx o (P : nat -> Prop) ss ds :
+  Forall2 (produced o) ss ds ->
+  (forall s e, In s ss -> In e (s_ents s) -> P (e_idx e)) ->
+  Forall P (flat_map leaf_idx_of ds).
+Proof.
+  induction 1 as [|s d ss' ds' Hsd _ IHp]; intros HP; [constructor|].
+  cbn [flat_map]. apply Forall_app. split.
+  - destruct d as [tail eidx|]; cbn [leaf_idx_of]; [|constructor].
+    destruct Hsd as (ib & b2 & Hps). apply process_leaf_inv in Hps. destruct Hps as (e & He & _ & ->).
+    constructor; [|constructor]. apply (HP s e); [left; reflexivity|rewrite He; left; reflexivity].
+  - apply IHp. intros s' e' Hs' He'. apply (HP s' e'); [right; exact Hs'|exact He'].
+Qed.
+
+(* every entry of the BFS leaf list is the key index of an entry of one of the subsets *)
+Lemma build_levels_lidx o (P : nat -> Prop) : forall fuel isbig base lbase ss forest lidx,
+  build_levels fuel o isbig base lbase ss = Ok (forest, lidx) ->
+  (forall s e, In s ss -> In e (s_ents s) -> P (e_idx e)) ->
+  Forall P lidx.
+Proof.
+  induction fuel as [|f IH]; intros isbig base lbase ss forest lidx H HP.
+  - destruct ss; cbn in H; [|discriminate]. inversion H; subst. constructor.
+  - destruct ss as [|s0 ss0]; [cbn in H; inversion H; subst; constructor|].
+    remember (s0 :: ss0) as ss eqn:Ess.
+    assert (build_levels (S f) o isbig base lbase ss =
+            (do (ds, b) <- process_level o isbig ss;
+             let lidx := flat_map leaf_idx_of ds in
+             let cbase := base + length ss in
+             do (forest, lidx') <- build_levels f o b cbase (lbase + length lidx) (flat_map kids_of ds);
+             Ok (assemble ds base cbase lbase forest, lidx ++ lidx'))) as Hunf.
+    { rewrite Ess. reflexivity. }
+    rewrite Hunf in H. clear Hunf. unfold bind in H.
+    destruct (process_level o isbig ss) as [[ds b]|] eqn:E1; [|discriminate].
+    cbv zeta in H.
+    destruct (build_levels f o b (base + length ss) (lbase + length (flat_map leaf_idx_of ds)) (flat_map kids_of ds))
+      as [[forest' lidx']|] eqn:E2; [|discriminate].
+    inversion H; subst forest lidx. clear H.
+    pose proof (process_level_spec _ _ _ _ _ E1) as Hp.
+    apply Forall_app. split.
+    + eapply level_lidx; eassumption.
+    + eapply IH; [exact E2|].
+      intros k e Hk He. apply in_flat_map in Hk. destruct Hk as (d & Hd & Hk).
+      destruct (Forall2_in_r _ _ _ _ Hp Hd) as (s & Hs & Hsd).
+      destruct d as [|big step pfx labels kids]; [destruct Hk|]. cbn [kids_of] in Hk.
+      destruct Hsd as (ib & b2 & Hps). apply process_inner_inv in Hps. cbv zeta in Hps.
+      destruct Hps as (_ & _ & _ & Hkids & _). rewrite Hkids in Hk.
+      apply (HP s e Hs). eapply split_kids_In; eassumption.
+Qed.
+
+Lemma mk_ents_idx : forall keys b keep e, In e (mk_ents b keys keep) -> b <= e_idx e < b + length keys.
+Proof.
+  induction keys as [|k r IH]; intros b keep e H; cbn [mk_ents length] in *; [destruct H|].
+  destruct H as [<-|H]; [cbn [e_idx]; lia|]. specialize (IH _ _ _ H). lia.
+Qed.
+
+Lemma build_ok_lidx o keys vals T :
+  build o keys vals = Ok T -> keys <> [] ->
+  exists r lidx, Built o keys vals T r lidx /\ Forall (fun i => i < length keys) lidx.
+Proof.
+  intros Hb Hne. rewrite build_unfold in Hb by exact Hne.
+  destruct (check_order keys) as [i|] eqn:Ec; [discriminate|]. cbv zeta in Hb. unfold bind in Hb.
+  destruct (build_levels _ o true 0 0 _) as [[forest lidx]|] eqn:Eb; [|discriminate].
+  destruct forest as [|r [|r2 rest]]; try discriminate.
+  inversion Hb; subst T. clear Hb. exists r, lidx. split.
+  - pose proof (build_levels_ok _ _ _ _ _ _ _ _ Eb) as [HT HL].
+    inversion HT as [|? ? ? ? Hr _]; subst. inversion HL as [|? ? Hl _]; subst.
+    constructor; cbn [t_root t_leaves t_leafpfx t_innerpfx]; try reflexivity; try assumption.
+    apply check_order_none. exact Ec.
+  - eapply build_levels_lidx; [exact Eb|]. intros s e [<-|[]] He. cbn [s_ents] in He.
+    apply mk_ents_idx in He. lia.
+Qed.
+
+Lemma skipn_add {A} a : forall b (l : list A), skipn (a + b) l = skipn b (skipn a l).
+Proof.
+  induction a as [|a IH]; intros b l; [reflexivity|]. destruct l as [|x l]; cbn [Nat.add skipn]; [destruct b; reflexivity|apply IH].
+Qed.
+
+(* fixed-width packing: element n of the concatenation *)
+Lemma concat_fixed w : forall (ls : list (list byte)) n b,
+  Forall (fun x => length x = w) ls -> nth_error ls n = Some b ->
+  n * w + w <= length (concat ls) /\ firstn w (skipn (n * w) (concat ls)) = b.
+Proof.
+  induction ls as [|a ls IH]; intros n b Hf Hn; [destruct n; discriminate|].
+  inversion Hf as [|? ? Ha Hf']; subst. cbn [concat]. rewrite app_length.
+  destruct n as [|n]; cbn [nth_error] in Hn.
+  - inversion Hn; subst. cbn [Nat.mul Nat.add skipn]. split; [lia|].
+    rewrite firstn_app, Nat.sub_diag, firstn_O, app_nil_r. apply firstn_all.
+  - destruct (IH n b Hf' Hn) as [H1 H2]. split; [cbn [Nat.mul]; lia|].
+    replace (S n * length a) with (length a + n * length a) by (cbn [Nat.mul]; lia).
+    rewrite skipn_add. rewrite skipn_app, Nat.sub_diag, skipn_all. cbn [skipn app]. exact H2.
+Qed.
+
+(* the node GetID returns on a built trie is a leaf of the tree *)
+Lemma getid_node_leaf o keys vals T r lidx q c :
+  Built o keys vals T r lidx -> getid_node T q = Some c -> In c (subtrees r) /\ is_leaf c = true.
+Proof.
+  intros B Hc.
+  pose proof (root_inv o keys vals (bt_sorted _ _ _ _ _ _ B) (bt_nonempty _ _ _ _ _ _ B)) as I.
+  split; [eapply getid_node_subtree; [apply (bt_root _ _ _ _ _ _ B)|exact Hc]|].
+  unfold getid_node in Hc. rewrite (bt_root _ _ _ _ _ _ B) in Hc. cbv zeta in Hc.
+  destruct (descend (nibs q) (length (nibs q)) r 0) as [[[c0 i] v]|] eqn:Ed; [|discriminate].
+  pose proof (descend_facts o q r _ (bt_trie _ _ _ _ _ _ B) I (Nat.le_0_l _) c0 i v) as Hf.
+  change (s_from (root_subset o keys vals)) with 0 in Hf. destruct (Hf Ed) as (Hleaf & _).
+  destruct (t_leafpfx T); [destruct (sess_tail c0 v); destruct (Nat.eqb i (length (nibs q))); try discriminate;
+    [destruct (bytes_eqb _ _); [|discriminate]|]|]; inversion Hc; subst; exact Hleaf.
+Qed.
+
+(* ================= Part 3: GetI<N> = Get, then decode ================= *)
+Theorem geti_agrees o keys vs T w q :
+  build o keys (Some vs) = Ok T ->
+  length vs = length keys -> Forall (fun v => length v = w) vs -> 0 < w ->
+  geti w T q = get_then_decode w T q /\
+  ((get T q = Ok NotFound /\ geti w T q = Ok (0%Z, false)) \/
+   (exists i b, i < length keys /\ nth_error vs i = Some b /\
+                get T q = Ok (Found (Some b)) /\ geti w T q = Ok (le_signed w b, true))).
+Proof.
+  intros Hb Hlen Hw Hpos.
+  destruct keys as [|k0 kr].
+  { inversion Hb; subst T. unfold geti, get_then_decode, get, getid_node. cbn. split; [reflexivity|left; split; reflexivity]. }
+  destruct (build_ok_lidx _ _ _ _ Hb) as (r & lidx & B & Hbound); [discriminate|].
+  set (keys := k0 :: kr) in *.
+  unfold geti, get_then_decode, get.
+  destruct (getid_node T q) as [c|] eqn:Eg; [|split; [reflexivity|left; split; reflexivity]].
+  destruct (getid_node_leaf _ _ _ _ _ _ _ _ B Eg) as [Hsub Hleaf].
+  destruct c as [id ord tail eidx|]; [|discriminate].
+  pose proof (leaf_subtree_leaves _ _ _ _ _ Hsub) as Hl.
+  pose proof (leaf_ok_root_nth lidx r ord eidx (bt_leaf _ _ _ _ _ _ B) Hl) as Hn.
+  (* the leaf array *)
+  set (elts := map (fun i => nth i vs []) lidx).
+  assert (Forall (fun x => length x = w) elts) as Helts.
+  { unfold elts. rewrite Forall_forall. intros x Hx. apply in_map_iff in Hx. destruct Hx as (i & <- & Hi).
+    rewrite Forall_forall in Hbound, Hw. apply Hw. apply nth_In. rewrite Hlen. apply Hbound. exact Hi. }
+  assert (nth_error elts ord = Some (nth eidx vs [])) as Hne.
+  { unfold elts. exact (nth_error_map_some (fun i => nth i vs []) lidx ord eidx Hn). }
+  assert (t_leaves T = Some elts) as HL.
+  { rewrite (bt_leaves _ _ _ _ _ _ B). unfold select_leaves. fold elts.
+    destruct (Nat.eqb_spec (total_size elts) 0) as [Hz|]; [|reflexivity]. exfalso.
+    apply total_size_zero in Hz. rewrite Forall_forall in Hz, Helts.
+    assert (In (nth eidx vs []) elts) as Hin by (eapply nth_error_In; exact Hne).
+    pose proof (Helts _ Hin) as L. rewrite (Hz _ Hin) in L. cbn in L. lia. }
+  assert (eidx < length keys) as Hidx.
+  { rewrite Forall_forall in Hbound. apply Hbound. eapply nth_error_In; exact Hn. }
+  set (b := nth eidx vs []) in *.
+  assert (length b = w) as Lb.
+  { rewrite Forall_forall in Helts. apply Helts. eapply nth_error_In; exact Hne. }
+  destruct (concat_fixed w elts ord b Helts Hne) as [Hrange Hslice].
+  cbn [leaf_index leaf_value]. unfold bind. rewrite HL, Hne.
+  destruct (Nat.ltb_spec (length (concat elts)) (ord * w + w)) as [|_]; [lia|].
+  rewrite Hslice, geti_value_decode by assumption.
+  destruct (Nat.ltb_spec (length b) w) as [|_]; [lia|].
+  assert (firstn w b = b) as -> by (rewrite <- Lb; apply firstn_all).
+  split; [reflexivity|]. right. exists eidx, b. split; [exact Hidx|]. split; [|split; reflexivity].
+  unfold b. apply nth_error_nth'. lia.
+Qed.
+
+(* the decoder applied to an encoded number gives the number back *)
+Lemma le_signed_encode (c : icodec) v :
+  ic_signed c = true -> ic_big c = false -> in_range true (ic_width c) v ->
+  le_signed (ic_width c) (int_encode c v) = v.
+Proof.
+  intros Hs Hb Hr. unfold le_signed, int_encode, ord_bytes. rewrite Hb.
+  rewrite EncodersProofs.le_value_le_bytes, EncodersProofs.wrap_idem.
+  apply (EncodersProofs.unwrap_wrap true). exact Hr.
+Qed.
+
+(* C14: a trie of numbers encoded with a signed little-endian codec of width w *)
+Theorem geti_same_number (c : icodec) o keys (zs : list Z) T q :
+  ic_signed c = true -> ic_big c = false -> 0 < ic_width c ->
+  Forall (in_range true (ic_width c)) zs -> length zs = length keys ->
+  build o keys (Some (map (int_encode c) zs)) = Ok T ->
+  (get T q = Ok NotFound /\ geti (ic_width c) T q = Ok (0%Z, false)) \/
+  (exists i z, i < length keys /\ nth_error zs i = Some z /\
+               get T q = Ok (Found (Some (int_encode c z))) /\
+               int_decode c (int_encode c z) = DOk (ic_width c, z) /\
+               geti (ic_width c) T q = Ok (z, true)).
+Proof.
+  intros Hs Hbg Hw Hr Hlen Hb.
+  destruct (geti_agrees o keys (map (int_encode c) zs) T (ic_width c) q Hb) as [_ H].
+  - rewrite map_length. exact Hlen.
+  - rewrite Forall_forall. intros x Hx. apply in_map_iff in Hx. destruct Hx as (z & <- & _).
+    apply EncodersProofs.int_encode_length.
+  - exact Hw.
+  - destruct H as [H|(i & b & Hi & Hn & Hg & Hgi)]; [left; exact H|right].
+    rewrite nth_error_map in Hn. destruct (nth_error zs i) as [z|] eqn:Ez; [|discriminate].
+    cbn in Hn. inversion Hn; subst b. exists i, z.
+    assert (in_range true (ic_width c) z) as Hz.
+    { rewrite Forall_forall in Hr. apply Hr. eapply nth_error_In; exact Ez. }
+    split; [exact Hi|]. split; [exact Ez|]. split; [exact Hg|]. split.
+    + pose proof (EncodersProofs.int_roundtrip c z []) as Hrt. rewrite app_nil_r in Hrt.
+      rewrite Hs in Hrt. rewrite (Hrt Hz). rewrite EncodersProofs.int_encode_length. reflexivity.
+    + rewrite Hgi. rewrite le_signed_encode by assumption. reflexivity.
+Qed.
